@@ -18,6 +18,9 @@ package main
 //	g  another tag sharing the first 1, 2, 3 bytes
 //	h  the tag as SECOND argument, junk first
 //	i  first argument the tag of another fixture key, second the tag
+//	t  the first argument IS the tag, but the stanza TYPE is a near miss of the
+//	   key type (other case, suffixes, bare "ssh-", the other SSH type), with a
+//	   correctly wrapped body and with garbage of the right length
 //
 // each with a body of the right and of a wrong size; alone, before and after a
 // genuinely matching stanza. Model: the locked identity is not asked and
@@ -47,6 +50,10 @@ type tagVariant struct {
 	name    string
 	args    func(tag string, rest []string) []string
 	rawOnly bool
+	// class t: the first argument IS the tag, but the stanza TYPE is a near miss
+	// of the key type; garbage = the body is random bytes of the right length
+	typ     func(keyType string) string
+	garbage bool
 }
 
 func firstArg(f func(tag string) string) func(string, []string) []string {
@@ -56,7 +63,7 @@ func firstArg(f func(tag string) string) func(string, []string) []string {
 func tagVariants(otherTag string) []tagVariant {
 	var vs []tagVariant
 	add := func(class, name string, raw bool, f func(tag string, rest []string) []string) {
-		vs = append(vs, tagVariant{class, name, f, raw})
+		vs = append(vs, tagVariant{class: class, name: name, args: f, rawOnly: raw})
 	}
 	for n := 1; n <= 8; n++ {
 		n := n
@@ -121,6 +128,35 @@ func tagVariants(otherTag string) []tagVariant {
 			return refage.B64(b)
 		}))
 	}
+	// t: near-miss stanza types with exactly the key's tag
+	sameArgs := func(t string, rest []string) []string { return append([]string{t}, rest...) }
+	short := func(kt string) string { return strings.TrimPrefix(kt, "ssh-") }
+	for _, tv := range []struct {
+		name string
+		f    func(kt string) string
+	}{
+		{"type-capitalised", func(kt string) string { return "ssh-" + strings.ToUpper(short(kt)[:1]) + short(kt)[1:] }},
+		{"type-upper-key-part", func(kt string) string { return "ssh-" + strings.ToUpper(short(kt)) }},
+		{"type-all-upper", strings.ToUpper},
+		{"type-suffix-v2", func(kt string) string { return kt + "-v2" }},
+		{"type-suffix-x", func(kt string) string { return kt + "x" }},
+		{"type-suffix-sha2", func(kt string) string { return kt + "-sha2" }},
+		{"type-bare-ssh-prefix", func(kt string) string { return "ssh-" }},
+		{"type-other-ssh-type", func(kt string) string {
+			if kt == "ssh-rsa" {
+				return "ssh-ed25519"
+			}
+			return "ssh-rsa"
+		}},
+	} {
+		for _, garbage := range []bool{false, true} {
+			n := tv.name
+			if garbage {
+				n += "-garbage-body"
+			}
+			vs = append(vs, tagVariant{class: "t", name: n, args: sameArgs, typ: tv.f, garbage: garbage})
+		}
+	}
 	add("h", "tag-second-junk-first", false, func(t string, rest []string) []string { return append([]string{"junk", t}, rest...) })
 	add("i", "other-key-tag-first-tag-second", false, func(t string, rest []string) []string { return []string{otherTag, t} })
 	return vs
@@ -139,11 +175,17 @@ func variantParty(of *party, v *tagVariant, wrongBody bool) *party {
 func (p *party) variantStanza(fk []byte, label string) refage.Stanza {
 	g := p.variantOf.wrap(fk, label)
 	st := refage.Stanza{Type: g.Type, Args: p.v.args(g.Args[0], g.Args[1:]), Body: g.Body}
-	if p.wrongBody {
-		st.Body = g.Body[:len(g.Body)-1]
+	if p.v.typ != nil {
+		st.Type = p.v.typ(g.Type)
 	}
-	if st.Args[0] == g.Args[0] {
-		panic("c19: tag variant " + p.v.name + " equals the tag")
+	if p.v.garbage {
+		st.Body = mon.DetBytes(label+"-garbage", len(g.Body))
+	}
+	if p.wrongBody {
+		st.Body = st.Body[:len(st.Body)-1]
+	}
+	if st.Args[0] == g.Args[0] && st.Type == g.Type {
+		panic("c19: variant " + p.v.name + " is the genuine stanza")
 	}
 	return st
 }
@@ -173,7 +215,7 @@ func markNearTag(r *mon.Run, class, kind string) {
 
 func nearTagVacuity(r *mon.Run, kinds []string) {
 	for _, k := range kinds {
-		for _, cl := range strings.Split("a b c d e f g h i", " ") {
+		for _, cl := range strings.Split("a b c d e f g h i t", " ") {
 			if _, ok := nearTagSeen.Load(cl + " " + k); !ok {
 				r.Inconclusive("near-tag class %s never ran against a still-locked %s identity", cl, k)
 			}
@@ -200,17 +242,20 @@ func addTagVariantFiles(r *mon.Run, c *idConf, otherTag string) [][]step {
 		}
 		f.variant, f.place = v.class, place
 		for _, st := range f.stanzas {
-			if malformedForOwnType(st) {
+			if st.Type == c.D.typ && malformedForOwnType(st) {
 				f.lenient = true
 			}
 		}
-		f.plainClass, _ = observe(c.S.plain, f)
-		if place == "alone" && f.hasD {
-			r.Inconclusive("%s near-tag file %s carries the real tag", c.name, f.name)
-			r.Count("sanity_failures", 1)
+		// Only where a stanza is malformed for the identity's own type does the
+		// unlocked outcome follow the tree's plain identity (measured); for
+		// every well-formed near miss — of the tag or of the type — the model
+		// decides: not addressed to the key, so "no match" unless a genuine
+		// stanza is present, locked or unlocked alike.
+		if f.lenient {
+			f.plainClass, _ = observe(c.S.plain, f)
 		}
-		if place == "alone" && !f.lenient && f.plainClass != clsNoMatch {
-			r.Inconclusive("%s near-tag file %s: the tree's plain identity answers %s for a well-formed stanza that is not addressed to it", c.name, f.name, f.plainClass)
+		if place == "alone" && f.hasD {
+			r.Inconclusive("%s near-miss file %s carries the real type and tag", c.name, f.name)
 			r.Count("sanity_failures", 1)
 		}
 		c.byName[f.name] = f
@@ -289,11 +334,14 @@ func tagUnwrapStage(r *mon.Run, fs *findings, confs []*idConf, otherTag map[stri
 			return clsError
 		}
 		// the model
+		lenient := vst.Type == c.D.typ && malformedForOwnType(vst)
 		want := pred{0, clsNoMatch}
 		if j.place != "alone" {
-			want = pred{1, classify(c.S.plain.Unwrap(toAge(sts)))}
+			want = pred{1, clsPlain}
+			if lenient {
+				want.class = classify(c.S.plain.Unwrap(toAge(sts)))
+			}
 		}
-		lenient := malformedForOwnType(vst)
 		prompts := 0
 		id, err := agessh.NewEncryptedSSHIdentity(c.pub, append([]byte(nil), c.pemBytes...), func() ([]byte, error) {
 			prompts++
